@@ -144,11 +144,26 @@ def c13(ctx, spec):
     ctx.extra['outcomes'] = {k: v for k, v in ctx.counters.items() if k in ('computed-ok', 'rejected', 'rejected:assertion', 'rejected:exception')}
     ctx.extra['not_compilable_on_pinned_tree'] = ['blas::asum (result type deduced as int / no matching core::asum)', 'blas::iamax in assertion-enabled builds (assert(!offset(x)) names an inaccessible base)', 'complex<float> gemm (beta comparison in core.hpp) if the TU fails to build']
 
+# ---------------------------------------------------------------------------------------------- C15
+def c15(ctx, spec):
+    builds = [dict(name='c15_d%d' % d, src='harness/c15_fftw.cpp', cfg='asan_noleak', defs=['C15_D=%d' % d], libs=['-lfftw3']) for d in (1, 2, 3, 4)]
+    if ctx.tier == 'thorough': builds += [dict(name='c15vg_d%d' % d, src='harness/c15_fftw.cpp', cfg='vg', defs=['C15_D=%d' % d], libs=['-lfftw3']) for d in (2, 3)]
+    ctx.build(builds)
+    n = T(ctx, 3000, 120000)
+    for d in (1, 2, 3, 4): ctx.run_sharded('c15_d%d' % d, n, args=['--maxext', 5 if d < 4 else 4], shards=4)
+    if ctx.tier == 'thorough':
+        for d in (2, 3): ctx.run_sharded('c15vg_d%d' % d, 1200, args=['--maxext', 4], shards=8, timeout=3000)
+
 HIST_RULE = ('histories (3..12 steps quick, ..40 thorough) over a pool of 4 owning arrays of one (element type, rank, allocator traits): 26 operation kinds (sizing/fill/allocator-extended/copy/move/view/init-list/iterator constructors, copy/move/self assignment over '
              'every prior state, assignment from views/other element type/init lists/ranges, swap, decay, 3 reextent overloads, clear, ={}, reshape, assign(first,last), element writes, destroy); unique ids as values; extents 0..3. '
              'After EVERY step: each live array vs. its model value, storage ranges pairwise disjoint, live-object registry == sum of num_elements, outstanding blocks == non-empty arrays with matching sizes, block owner == get_allocator(), get_allocator() == what the traits prescribe. ')
 
 REGISTRY = {
+    'C15': dict(fn=c15, level='exploration',
+                rule='random cases: D 1..4, extents 1..6 (non powers of two, size-1 dimensions forced sometimes), all 2^D masks, both signs, input and output layouts independently from {contiguous, rotated root, unrotated root, transposed root, padded block, strided-of-doubled} over guarded roots (64 canaries, poisoned padding); '
+                     'modes: out-of-place dft, in-place overload, forward followed by backward. Oracle: direct O(N^2) DFT along exactly the masked dimensions (batches over the rest) with tolerance 1e-10*N*max|in|; distinct input bit-identical afterwards; every root element outside the output view untouched; forward∘backward == N_transformed * input. '
+                     'thorough adds a valgrind memcheck pass (reads/writes inside FFTW). distinct = hash(mask, layout pair, mode, sign, size classes); non-trivial = more than one element and more than one transformed point',
+                assumptions=['FFTW itself is trusted as a black box only through its observable reads/writes: ASan cannot see inside it (canaries/poison in quick, memcheck in thorough)']),
     'C13': dict(fn=c13, level='exploration', exhaustive=True,
                 rule='exhaustive enumeration (case k = mixed-radix index): gemm {in-place, C=gemm, C+=gemm, +gemm} x A,B,C layouts {row-major contiguous, row-major padded sub-block, column-major contiguous, column-major padded} x m,n,k in 0..3 x 3 (alpha,beta) pairs x (complex: N/J/H on A and B); '
                      'gemv {in-place, y=gemv} x 4 matrix layouts x 4x4 vector layouts (unit, strided, column of padded matrix, row of padded matrix) x m,n in 0..3 x scalars; axpy, scal, copy, swap, dot (u/c forms), nrm2 on 4x4 vector layouts x n in 0..4; herk, syrk, trsm x layouts x both triangles x n,k in 0..3; double and complex<double> (thorough: float, complex<float>, and memcheck). '
